@@ -315,6 +315,110 @@ theorem C09_via_circuit (s : St) (so : Nat) :
           · exact absurd h h2
       · simp [hb']
 
+/-! ### a connection through a circuit whose SOCKS side fails -/
+
+theorem rekey_shape (key : Text × Nat) (g : Nat) (ts : List ((Text × Nat) × (Nat × Nat))) (d : Nat)
+    (ts' : List ((Text × Nat) × (Nat × Nat))) (h : rekey key g ts = some (d, ts')) :
+    ts'.map (·.1) = ts.map (·.1) ∧ ts'.map (·.2.1) = ts.map (·.2.1) ∧
+    (∀ e, e.1 ≠ key → (e ∈ ts' ↔ e ∈ ts)) ∧
+    (∃ e ∈ ts, e.1 = key ∧ e.2.2 = d ∧ (key, (e.2.1, g)) ∈ ts') := by
+  induction ts generalizing ts' with
+  | nil => simp [rekey] at h
+  | cons e r ih =>
+    simp only [rekey] at h
+    split at h
+    · rename_i hk
+      simp only [Option.some.injEq, Prod.mk.injEq] at h
+      obtain ⟨h1, h2⟩ := h
+      subst h2
+      refine ⟨by simp, by simp, ?_, ⟨e, by simp, hk, h1, by simp [← hk]⟩⟩
+      intro e' hne
+      simp only [List.mem_cons]
+      constructor
+      · rintro (h | h)
+        · exact absurd (by rw [h, hk]) hne
+        · exact Or.inr h
+      · rintro (h | h)
+        · exact absurd (by rw [h, hk]) hne
+        · exact Or.inr h
+    · cases hr : rekey key g r with
+      | none => simp [hr] at h
+      | some q =>
+        simp only [hr, Option.map_some, Option.some.injEq, Prod.mk.injEq] at h
+        obtain ⟨h1, h2⟩ := h
+        subst h2
+        obtain ⟨i1, i2, i3, e0, he0, hk0, hd0, hm0⟩ := ih q.2 (by rw [hr, ← h1])
+        refine ⟨by simp [i1], by simp [i2], ?_, ⟨e0, by simp [he0], hk0, hd0, by simp [hm0]⟩⟩
+        intro e' hne
+        simp only [List.mem_cons]
+        rw [i3 e' hne]
+
+theorem rekey_none (key : Text × Nat) (g : Nat) (ts : List ((Text × Nat) × (Nat × Nat))) (h : rekey key g ts = none) :
+    ∀ e ∈ ts, e.1 ≠ key := by
+  induction ts with
+  | nil => simp
+  | cons a r ih =>
+    simp only [rekey] at h
+    split at h
+    · simp at h
+    · rename_i hne
+      cases hr : rekey key g r with
+      | some q => simp [hr] at h
+      | none =>
+        intro e he
+        rcases List.mem_cons.mp he with e1 | e1
+        · rw [e1]; exact hne
+        · exact ih hr e e1
+
+theorem rekey_first (key : Text × Nat) (g : Nat) (ts : List ((Text × Nat) × (Nat × Nat))) (q : Nat × List ((Text × Nat) × (Nat × Nat)))
+    (h : rekey key g ts = some q) (e : (Text × Nat) × (Nat × Nat)) (he : ts.find? (fun e => e.1 = key) = some e) : q.1 = e.2.2 := by
+  induction ts generalizing q with
+  | nil => simp at he
+  | cons a r ih =>
+    simp only [rekey] at h
+    simp only [List.find?_cons] at he
+    by_cases hk : a.1 = key
+    · simp only [hk, if_true, Option.some.injEq] at h
+      simp only [hk, decide_true, Option.some.injEq] at he
+      rw [← h, he]
+    · simp only [hk, if_false] at h
+      simp only [hk, decide_false] at he
+      cases hr : rekey key g r with
+      | none => simp [hr] at h
+      | some q' =>
+        simp only [hr, Option.map_some, Option.some.injEq] at h
+        have := ih q' hr he
+        rw [← h]; exact this
+
+/-- **A failed connection disturbs no other.** When the SOCKS connection made from `(addr, port)` for a connection through
+a circuit fails, that connection's `connect()` fails — once — and nothing else changes: every registration of every other
+connection (same circuit or not) stays exactly as it was, the registration of this address keeps naming the same
+circuit, nothing is sent to Tor and no stream or circuit is touched. -/
+theorem C09_via_lost (s : St) (addr : Text) (port : Nat) :
+    let r := step s (.viaLost addr port)
+    ((∀ e ∈ s.targets, e.1 ≠ (addr, port)) → r = (s, [])) ∧
+    (r.1.targets.map (·.1) = s.targets.map (·.1)) ∧ (r.1.targets.map (·.2.1) = s.targets.map (·.2.1)) ∧
+    (∀ e, e.1 ≠ (addr, port) → (e ∈ r.1.targets ↔ e ∈ s.targets)) ∧
+    (∀ o ∈ r.2, ∀ l, o ≠ .cmd l) ∧
+    r.1.cobj = s.cobj ∧ r.1.sobj = s.sobj ∧ r.1.circuits = s.circuits ∧ r.1.streams = s.streams ∧ r.1.pending = s.pending ∧
+    (∀ e, s.targets.find? (fun e => e.1 = (addr, port)) = some e → r.2 = [.fire e.2.2 false, .deferred s.nextD]) := by
+  simp only [TxV.TorState.step]
+  cases h : rekey (addr, port) s.nextD s.targets with
+  | none =>
+    refine ⟨fun _ => rfl, rfl, rfl, fun _ _ => Iff.rfl, by simp, rfl, rfl, rfl, rfl, rfl, ?_⟩
+    intro e he
+    exfalso
+    have hm := List.mem_of_find?_eq_some he
+    have hk : e.1 = (addr, port) := by simpa using List.find?_some he
+    exact rekey_none _ _ _ h e hm hk
+  | some q =>
+    obtain ⟨i1, i2, i3, e0, he0, hk0, hd0, _⟩ := rekey_shape _ _ _ q.1 q.2 h
+    refine ⟨?_, i1, i2, i3, by simp, rfl, rfl, rfl, rfl, rfl, ?_⟩
+    · intro hall; exact absurd hk0 (hall e0 he0)
+    · intro e he
+      have := rekey_first _ _ _ q h e he
+      simp [this]
+
 /-! ## PriorityAttacher -/
 
 open TxV.Attacher in
